@@ -248,3 +248,12 @@ CLAIMS["C34"] = (
     "convention and not decided; truth is 'unknown' wherever the value domain cannot decide (e.g. algebraicity of "
     "sin(1))",
     "TLA+ three-valued property semantics on the value domain + TLC trace validation")
+
+CLAIMS["C38"] = (
+    "model_checking",
+    "TLC enumerates grids (as sequences: the recurrence depends on the order) of 1-5 distinct points out of 9 "
+    "rationals, 6 centres (and a symbolic centre) and maximum derivative orders 0-5; the weights are computed by the "
+    "library and TLC validates them against the exactness equations sum_i w[i,k]*(g_i-a)^m = k!*[m=k] for all "
+    "m < n and k up to the maximum order, in exact rational arithmetic (the equations determine the weights uniquely "
+    "for k < n)",
+    "6/C38", TRUSTED, "TLA+ exactness contract over exact rationals + TLC trace validation")
